@@ -64,7 +64,8 @@ def rule_agg(ctx):
     ctx.check('agg', 'over-all-unspents', len(vals) == 1 and canon(oc.op_expr(vals[0].args[0])) == 'self.unspents', oc, 'for unspent in self.unspents.values()')
     fs = mir.fmt_sites(oc)
     head = util.header_writes(prog, oc, 'address;balance\n')
-    rows = [f for f in fs if len(f.args) == 2 and f.literal_skeleton == '{};{}\n']
+    # data rows: the `{};{}` sites inside a loop (a shared write_row helper may also produce the header outside it)
+    rows = [f for f in fs if len(f.args) == 2 and f.literal_skeleton == '{};{}\n' and oc.loop_depth(f.cs.bb) >= 1]
     ctx.check('agg', 'header', len(head) == 1, oc, 'header address;balance')
     if rows:
         f = rows[0]
